@@ -253,8 +253,9 @@ class SqueethWorld:
                 eth *= math.exp(rng.gauss(0, 0.0008)) * (rng.choice([1.0] * 12 + [1.12, 1.25, 0.85]))
             elif kind == "wick":
                 pass
-            nf *= 1 - rng.uniform(0, 2e-6)
-            prem *= math.exp(rng.gauss(0, 0.0015))
+            if kind != "flat":
+                nf *= 1 - rng.uniform(0, 2e-6)
+                prem *= math.exp(rng.gauss(0, 0.0015))
             e = eth
             if kind == "wick" and i % 11 == 7:
                 e = eth * 1.35
